@@ -23,7 +23,7 @@ Fa(c) == IF c.prpage = 0 THEN c.pc ELSE c.pc + 262144 * c.prpage
 StateOf(c) ==
     [r |-> [ResetRegs EXCEPT !.pc = c.pc, !.prpage = c.prpage, !.a0 = c.a0, !.r = <<c.r0, 4660, 0, 0, 0, 0, 0, 0>>, !.sp = 4096],
      mem |-> (Fa(c) :> c.op[1]) @@ ((Fa(c) + 1) :> c.op[2]), io |-> [o \in {} |-> 0], acc |-> <<>>, out |-> "ok", idle |-> FALSE,
-     lat |-> <<0, 0, 0, 0>>, vaddr |-> 0, vctx |-> 0, miu |-> [base |-> 32768, z |-> c.z]]
+     lat |-> <<0, 0, 0, 0>>, vaddr |-> 0, vctx |-> 0, miu |-> [MiuReset EXCEPT !.z = c.z]]
 
 Cause(c, s1) ==
     LET i == CHOOSE i \in 1 .. Len(s1.acc) : s1.acc[i][1] >= MemWords /\ ~ InIo(s1.acc[i][1])
@@ -38,10 +38,15 @@ InBounds ==
     /\ s1.out # "oob" => \A i \in 1 .. Len(s1.acc) : s1.acc[i][1] < MemWords \/ InIo(s1.acc[i][1])
     /\ s1.r.bcn \in 0 .. 4
 
-\* data address formation for EVERY 16-bit address (not only the boundary cases)
+\* data address formation (MemoryInterfaceUnit::ConvertDataAddress / InMMIO / ToMMIO) for boundary addresses under EVERY
+\* configuration class of the MIU registers, which the guest can set freely: the access either asserts or lies inside
+\* the array / the 0x800 MMIO offsets
 DataAddressInBounds ==
-    \A a \in {0, 1, 32767, 32768, 34815, 34816, 65534, 65535} : \A z \in 0 .. 1 : \A base \in {0, 32768, 63488, 65535} :
-        LET s == [StateOf(vB) EXCEPT !.miu = [base |-> base, z |-> z]]
+    (vB.pc = 0 /\ vB.prpage = 0 /\ vB.z = 0 /\ vB.r0 = 0) =>      \* independent of the case: evaluated on the seed states only
+    \A a \in {0, 1, 1023, 1024, 1025, 32767, 32768, 32769, 34815, 34816, 64511, 64512, 65534, 65535} :
+    \A base \in {0, 32768, 63488, 65535} : \A pm \in 0 .. 1 : \A z \in {0, 1, 2, 65535} : \A xp \in {0, 1, 2, 65535} :
+    \A yp \in {0, 1, 2, 65535} : \A xs0 \in {0, 1, 32, 63} :
+        LET s == [StateOf(vB) EXCEPT !.miu = [MiuReset EXCEPT !.base = base, !.z = z, !.pm = pm, !.xp = xp, !.yp = yp, !.xs = <<xs0, 32>>]]
             ph == DataPhys(s, a)
-        IN  ph < MemWords \/ (InIo(ph) /\ ph - MmioBase < 2048)
+        IN  DAsserts(s, a) \/ ph < MemWords \/ (InIo(ph) /\ ph - MmioBase < 2048)
 =============================================================================
